@@ -11,11 +11,23 @@
 // Oracles on every call:
 //
 //  1. the base (internal dump + public-API dump with mtimes, taken directly on
-//     the base as administrator, over every volume) is identical before and after;
-//  2. a mutating call fails with errors.Is(err, fs.ErrPermission);
+//     the base as administrator, over every volume; and what the base answers
+//     its own readers - every directory listed through a handle by
+//     Readdirnames and by ReadDir, thorough: also in pieces, by ReadDir of the
+//     file system and by Glob - see answers in system.go) is identical before
+//     and after;
+//  2. a mutating call fails with errors.Is(err, fs.ErrPermission), also when
+//     its arguments are the ones documented to change nothing (noOps in
+//     alphabet.go);
 //  3. a read-only call returns what the same call returns on a twin base with
 //     identical content, driven directly (handles: a twin handle opened by the
 //     mirrored call).
+//
+// The harness is a caller that uses what it is given as its own: buffers it
+// passed and every slice a call returned ([]byte, []string, []fs.DirEntry) are
+// written over up to their capacity once the call has returned and the value
+// has been read (scribbleSlice in invoke.go), on the wrapper side and on the
+// twin alike.
 //
 // The base does not stay what it was: the alphabet also holds base-side letters
 // (baseside.go), changes made directly on the base and on the twin, each of
@@ -29,6 +41,7 @@ import (
 	"fmt"
 	"os"
 	"path/filepath"
+	"regexp"
 	"sort"
 	"strconv"
 	"strings"
@@ -41,6 +54,9 @@ import (
 	"verif/lib/ev"
 	"verif/lib/kf"
 )
+
+// reCounter: a counter at the end of an outcome (see the aggregation in main).
+var reCounter = regexp.MustCompile(` (questions|lent|asked)=([0-9]+)$`)
 
 func newSys(name, tier string) (*sys, []string, map[string]any) {
 	s := &sys{name: name, tier: tier}
@@ -275,6 +291,7 @@ func main() {
 	// ---- aggregate
 	states, steps, executed, skipped := 0, 0, 0, 0
 	baseSteps, questions := 0, 0 // base-side steps executed; questions asked before and again after the change, summed over them
+	lent, asked := 0, 0          // slices returned through the wrapper and written over; calls around which the base was asked for its answers
 	outcomes := map[string]int{}
 	exh := true
 	depthDone := d
@@ -294,12 +311,28 @@ func main() {
 
 			executed += n
 
-			// a base-side step reports how many questions it asked around the change
-			if i := strings.Index(k, " questions="); i >= 0 {
-				q, _ := strconv.Atoi(k[i+len(" questions="):])
-				k = k[:i]
-				baseSteps += n
-				questions += q * n
+			// counters carried by the outcome: a base-side step reports how many questions it
+			// asked around the change, a call through the wrapper how many returned slices were
+			// written over and whether the base was asked for its answers around it
+			// (at its end; the class itself may hold blanks)
+			for {
+				m := reCounter.FindStringSubmatch(k)
+				if m == nil {
+					break
+				}
+
+				k = k[:len(k)-len(m[0])]
+				q, _ := strconv.Atoi(m[2])
+
+				switch m[1] {
+				case "questions":
+					baseSteps += n
+					questions += q * n
+				case "lent":
+					lent += q * n
+				case "asked":
+					asked += n
+				}
 			}
 
 			outcomes[k] += n
@@ -407,19 +440,22 @@ func main() {
 		Coverage: map[string]any{
 			"states": states, "transitions": executed, "traces_validated_against_impl": executed,
 			"evaluations": executed, "distinct_nontrivial": len(outcomes),
-			"rule": "every history of length <= bound over the static alphabet (every avfs.VFS method on the RoFS and on a pooled Sub file system, every avfs.File method on two pooled handle slots; methods enumerated by reflection, small argument domain per parameter; plus the base-side letters: a handful of changes made directly on the base and identically on the twin, not through the wrapper - a file with a second link grows, shrinks, changes mode, is renamed, loses a link, a directory appears in a listed directory; thorough: also mtime, a file losing its last name, a new file, a directory renamed or removed with its content, a file of the second volume) executed on a fresh real RoFS over a real base with a twin base as reference; " +
+			"rule": "every history of length <= bound over the static alphabet (every avfs.VFS method on the RoFS and on a pooled Sub file system, every avfs.File method on two pooled handle slots; methods enumerated by reflection, small argument domain per parameter - for every mutating method a value that would change something and the value(s) documented or bound to change nothing: Chown/Lchown/File.Chown with the owner the node has and with -1 for both ids (thorough: for either), Chtimes with the zero time, Chmod/File.Chmod with the mode the node has, Truncate/File.Truncate with the size the file has, Write/WriteString/WriteAt of no bytes, Link/Rename/Symlink of a name onto itself and onto another link of the same file, SetUMask of the mask in force, MkdirAll of an existing directory, RemoveAll of a missing name; plus the base-side letters: a handful of changes made directly on the base and identically on the twin, not through the wrapper - a file with a second link grows, shrinks, changes mode, is renamed, loses a link, a directory appears in a listed directory; thorough: also mtime, a file losing its last name, a new file, a directory renamed or removed with its content, a file of the second volume) executed on a fresh real RoFS over a real base with a twin base as reference; " +
 				"a base-side letter asks every pooled object (the RoFS, the pooled Sub file system, the pooled handles) every question of the alphabet that reads the tree and does not move its receiver (file system: Stat, Lstat, ReadDir, ReadFile, Readlink, EvalSymlinks over the path domain, thorough: also Glob and WalkDir; handle: Stat, Name, ReadAt; per system: alphabet.<system>.questions_asked_around_a_base_side_letter) BEFORE the change and again AFTER it: after the change every answer must equal the answer of the twin, the FileInfo/DirEntry values handed out before the change must say what the twin's say, and the questions must leave the base as the change left it; " +
+				"the harness uses every value it is given as its own: after a call has returned and its results have been read, every slice it returned ([]byte, []string of Readdirnames/Glob, []fs.DirEntry of ReadDir, whole listings and pieces read with n > 0 alike) is overwritten element by element up to its CAPACITY (what sorting, renaming an element or appending to a piece does), on the wrapper side (returned_slices_written_over) and on the twin alike; around every call that carries a slice or a function across the wrapper (quick) / around every call (thorough), and around every base-side letter, the snapshot also holds what the base answers its own readers, asked directly on the base: a handle of every directory read at once by Readdirnames and another by ReadDir (thorough: also both in pieces of one entry, ReadDir of the file system, Glob dir/*, ReadFile of every file, Readlink of every link) - these answers must be the same before and after the call (change class 'answers'; calls_with_answers_of_the_base_in_the_snapshot); " +
 				"bases: MemFS and OrefaFS, each Linux-typed and Windows-typed (<kind>@Windows; same tree on volume C:, paths spelled with volume and backslashes, plus a rooted path without volume; the Windows-typed MemFS holds a second volume D: with a directory and a file, which are operands of every path method, of Sub, WalkDir, Glob, Rel, SameFile and of the second operand of Link/Rename/Symlink); " +
 				"transitions = calls actually executed (alphabet operations whose receiver slot is empty are skipped and counted apart; a base-side step counts once, its questions (each asked before and again after the change) are counted in base_side_questions); distinct_nontrivial = distinct (object kind, method, outcome class) triples observed",
-			"samples":                samples,
-			"exhaustive":             exh,
-			"bound":                  fmt.Sprintf("histories of length <= %d (completed %d); a base-side letter may stand at every position of a history", d, depthDone),
-			"systems":                all,
-			"alphabet":               alphaInfo,
-			"steps_including_skips":  steps,
-			"skipped_empty_receiver": skipped,
-			"base_side_steps":        baseSteps,
-			"base_side_questions":    questions,
+			"samples":                      samples,
+			"exhaustive":                   exh,
+			"bound":                        fmt.Sprintf("histories of length <= %d (completed %d); a base-side letter may stand at every position of a history", d, depthDone),
+			"systems":                      all,
+			"alphabet":                     alphaInfo,
+			"steps_including_skips":        steps,
+			"skipped_empty_receiver":       skipped,
+			"base_side_steps":              baseSteps,
+			"base_side_questions":          questions,
+			"returned_slices_written_over": lent,
+			"calls_with_answers_of_the_base_in_the_snapshot":        asked + baseSteps,
 			"mutating_calls_refused_with_permission_error":          refused,
 			"of_which_windows_typed_chown_lchown_symlink_os_answer": refusedOS,
 			"view_state_changes_recorded":                           viewChanges,
@@ -430,6 +466,8 @@ func main() {
 			"budget_s":                                              budget,
 		},
 		Assumptions: []string{
+			"what the base answers its own readers (third part of the snapshot) is compared before/after a call only when both snapshots were given to the same user of the base (SetUser through the wrapper is view state and changes what a reader may see); in the quick tier it is taken around the calls whose signature carries a slice or a function (and around base-side letters) only, so a call without such a parameter or result that damaged a listing kept inside the base would be noticed at the next call that has one, and attributed to that call",
+			"slices are written over on both sides (wrapper and twin): what a handle shares with its own caller only (MemFile/OrefaFile.Readdirnames and ReadDir with n > 0 return sub-slices of the listing the handle keeps for the following pieces) stays equal on both sides and is not a change of the underlying file system; it is not judged here",
 			"the base snapshot is the injected internal dump (tree, bytes, modes, owners, link counts; every volume of the volume table of a Windows-typed MemFS, so that a volume added, removed or re-rooted is a change) plus a public-API dump with mtimes taken directly on the base as administrator; the OrefaFS root directory is not addressable through the API (under either OS type), so its own mtime is not observed",
 			"Windows-typed bases are the library's own emulation (Options.OSType = avfs.OsWindows, build tag avfs_setostype) on a Linux host; the OrefaFS has no volume management, so only the MemFS holds a second volume",
 			"permission CLASS: errors.Is(err, fs.ErrPermission); no particular errno is demanded. On a Windows-typed base Chown/Lchown of a file system answer avfs.ErrWinNotSupported and Symlink answers avfs.ErrWinPrivilegeNotHeld on the base itself as through the RoFS, as package os does on Windows whatever the file system; neither is fs.ErrPermission (for package os either): the check stays strict, reports them as wrong-error-class and the deviation is listed as known finding KF-C09-001. On a handle that was returned together with an error (typed nil or zero RoFile) any error is accepted for a mutating call, on a closed handle a closed-file error is accepted too; a panic never is",
